@@ -20,7 +20,12 @@ if ENGINE == 'sx':
             if getattr(_mod, 'calendar', None) is _realcal:
                 _mod.calendar = _sd.calendar
 
-MODEL = DateTimeRecognizer(Culture.English, DateTimeOptions.NONE, lazy_initialization=False).get_datetime_model()
+CULT = sl('culture', 'en-us')
+MODEL = DateTimeRecognizer(CULT, DateTimeOptions.NONE, lazy_initialization=False).get_datetime_model()
+if CULT != 'en-us':
+    for _name, _mod in list(sys.modules.items()):
+        if _name.startswith('recognizers_date_time.date_time.') and _mod is not None and not hasattr(_mod, 'int'):
+            _mod.int = digits.unint          # int(<digit text>) of a placeholder -> the symbolic int it stands for (as dtcommon does for the base modules)
 env.assert_repo(type(MODEL))
 ORD_LO, ORD_HI = 711858, 763363          # 1950-01-01 .. 2090-12-31
 QUERY = sl('q', 'today')
